@@ -120,7 +120,52 @@ def poll_loop(w, sid, until, pings, noops, g=None):
     return g
 
 
+class _SleepyDisconnect:
+    def connect(self, sid, environ):
+        return []
+
+    def message(self, sid, data):
+        return []
+
+    def disconnect(self, sid, reason):
+        return [('sleep', 0.25)]
+
+
+def run_closing_case(impl, case, out):
+    """The session is being ended (its disconnect event has fired, the handler has not returned yet) when the body
+    arrives: nothing in it is acted upon."""
+    pkts, mode = case['pkts'], case['async_handlers']
+    w = peer.make_world(impl, server_kwargs=dict(ping_interval=INTERVAL, ping_timeout=1, async_handlers=mode),
+                        behaviour=_SleepyDisconnect())
+    try:
+        sid = peer.sid_of(peer.open_polling(w))
+        peer.poll(w, sid)
+        if case['how'] == 'post_close':
+            peer.post(w, sid, '1')
+        else:
+            w.call('disconnect', sid)
+            w.run()
+        nev = len(w.events)
+        r = peer.post(w, sid, '\x1e'.join(pkts))
+        w.run_until(w.now + 1.0)
+        msgs = [e[2] for e in w.events[nev:] if e[0] == 'message']
+        disc = [e for e in w.events if e[0] == 'disconnect']
+        if r.exc:
+            V(out, impl, 'exception_escaped', 'body_while_closing', 'POST raised %s at %s' % (r.exc['type'], r.exc['site']), case)
+        if msgs:
+            V(out, impl, 'acted_after_end', 'body_while_closing', 'message events %r from a body that arrived after the disconnect event '
+              '(handler still running)' % (msgs,), case)
+        if len(disc) != 1:
+            V(out, impl, 'disconnect_count', 'body_while_closing', '%d disconnect events' % len(disc), case)
+    finally:
+        _DIGESTS.add(digest.world_digest(w))
+        _STEPS[0] += w.nstep
+        w.teardown()
+
+
 def run_post_case(impl, case, out):
+    if case.get('session') == 'closing':
+        return run_closing_case(impl, case, out)
     pkts, mode, with_poll = case['pkts'], case['async_handlers'], case['poll']
     w = peer.make_world(impl, server_kwargs=dict(ping_interval=INTERVAL, ping_timeout=1, async_handlers=mode))
     try:
@@ -335,6 +380,8 @@ def run(ctx):
                     jobs.append(('post', impl, {'pkts': b, 'async_handlers': mode, 'poll': poll}))
                 if len(b) <= 2:
                     jobs.append(('post', impl, {'pkts': b, 'async_handlers': mode, 'poll': True, 'session': 'mid_upgrade'}))
+                    for how in ('post_close', 'api_disconnect'):
+                        jobs.append(('post', impl, {'pkts': b, 'async_handlers': mode, 'poll': True, 'session': 'closing', 'how': how}))
             for f in fseqs:
                 for sk in ('ws_only', 'upgraded'):
                     jobs.append(('ws', impl, {'pkts': f, 'async_handlers': mode, 'session': sk}))
@@ -358,7 +405,7 @@ def run(ctx):
         'evaluations': n, 'distinct_nontrivial': n,
         'rule': 'every POST body of <= %d packets over %r (plus the complete depth-3 slice with a seed-chosen first packet at the '
                 'quick tier, and 16/17/18-packet bodies) and every sequence of <= %d frames over the same alphabet plus raw '
-                'binary, empty, invalid base64 and bare "4"; sessions: polling (pending poll%s), polling in the middle of an upgrade handshake, WebSocket-only, upgraded; '
+                'binary, empty, invalid base64 and bare "4"; sessions: polling (pending poll%s), polling in the middle of an upgrade handshake, polling in the middle of its own close (disconnect handler asleep), WebSocket-only, upgraded; '
                 'async_handlers in {False, True}; Server and AsyncServer. states = distinct canonical digests of the final world '
                 'state over all histories; transitions = scheduler steps executed on the real servers; traces = histories.'
                 % (depth, PKTS, depth, '' if ctx.quick else ' on/off'),
